@@ -642,6 +642,39 @@ func flowAndCopyPrograms() [][]byte {
 	}
 	m.Op(eu.MSIZE, eu.POP)
 	progs = append(progs, m.Bytes())
+	return append(progs, zeroLengthPrograms()...)
+}
+
+// zeroLengthPrograms: every instruction of the computational set with an (offset, length) operand
+// pair, length 0 and offsets up to 2^256-1: a zero-length range is a no-op whatever the offset is
+// (KECCAK256 yields the hash of the empty string, copies leave memory and its size alone,
+// RETURN / REVERT return nothing).
+func zeroLengthPrograms() [][]byte {
+	var progs [][]byte
+	max := wrap(new(big.Int).Sub(two256, one))
+	offs := []*big.Int{big.NewInt(0), pow2(32), pow2(63), new(big.Int).Sub(pow2(64), one), pow2(64), pow2(255), max}
+	a := eu.NewAsm()
+	a.Push(max.Bytes()).PushInt(0).Op(eu.MSTORE) // some memory, so that MSIZE and the image are not trivially empty
+	for _, o := range offs {
+		a.PushInt(0).Push(o.Bytes()).Op(eu.SHA3, eu.POP, eu.MSIZE, eu.POP)
+		for _, cp := range []byte{eu.CALLDATACOPY, eu.CODECOPY} {
+			for _, src := range []*big.Int{big.NewInt(0), o} {
+				a.PushInt(0).Push(src.Bytes()).Push(o.Bytes()).Op(cp, eu.MSIZE, eu.POP)
+			}
+		}
+		a.PushInt(0).PushInt(0).Push(o.Bytes()).Op(eu.RETURNDATACOPY, eu.MSIZE, eu.POP)
+		a.PushInt(0).Push(o.Bytes()).PushInt(0).Op(eu.MCOPY)
+		a.PushInt(0).PushInt(0).Push(o.Bytes()).Op(eu.MCOPY)
+		a.PushInt(0).Push(o.Bytes()).Push(o.Bytes()).Op(eu.MCOPY, eu.MSIZE, eu.POP)
+	}
+	progs = append(progs, a.Bytes())
+	for _, o := range offs {
+		for _, end := range []byte{eu.RETURN, eu.REVERT} {
+			b := eu.NewAsm().Push(max.Bytes()).PushInt(0).Op(eu.MSTORE)
+			b.PushInt(0).Push(o.Bytes()).Op(end)
+			progs = append(progs, b.Bytes())
+		}
+	}
 	return progs
 }
 
